@@ -206,6 +206,11 @@ def compare(p, model, sc_obs, obs_end):
         ub = [(tix.get(x[0], -1), Fraction(*x[1])) for x in b["usage"]] if b else []
         if len(ua) != len(ub) or any(x[0] != y[0] or abs(x[1] - y[1]) > tol for x, y in zip(ua, ub)):
             diffs.append(f"ledger {key} usage: model {[(x, float(y)) for x, y in ua]} impl {[(x, float(y)) for x, y in ub]}")
+    # the order in which the loop placed the tasks (ghost order of the C07 theorems)
+    if "order" in model and "pick_order" in sc_obs:
+        om = [tasks[i][0] if i < len(tasks) else f"#{i}" for i in model["order"]]
+        if om != sc_obs["pick_order"]:
+            diffs.append(f"placement order: model {om} impl {sc_obs['pick_order']}")
     w_m = set(model["warnings"])
     w_o = {w for w in sc_obs.get("_warnings", []) if w in ("deadlock", "unscheduled_tasks")}
     if w_m != w_o:
